@@ -181,6 +181,9 @@ func (d *deepView) strLang(v ssa.Value, fr *frame, depth int) []seg {
 				switch {
 				case b.kind == "enc" && (b.order == "BE" || b.order == "-"):
 					o := d.originOf(b.v.v, b.v.fr)
+					if arr, isArr := b.v.v.Type().Underlying().(*types.Array); isArr && binarySize(arr.Elem()) == 1 && o.blo < 0 {
+						o.blo, o.bhi = 0, arr.Len()
+					}
 					out = append(out, seg{kind: "hex", digits: int(2 * w), val: b.v.v, fr: b.v.fr, origin: &o})
 				case b.kind == "bytes":
 					o := d.originOf(b.v.v, b.v.fr)
